@@ -92,6 +92,9 @@ public:
     template<typename View>
     void apply( const View& view )
     {
+        // the reader may have been copied since its constructor ran: libjpeg's error exit has to reach this object's _mark
+        this->get()->client_data = static_cast< reader_backend< Device, jpeg_tag >* >( this );
+
         // Fire exception in case of error.
         if( setjmp( this->_mark ))
         {
@@ -168,6 +171,7 @@ private:
         // @todo Is the buffer above cleaned up when the exception is thrown?
         //       The strategy right now is to allocate necessary memory before
         //       the setjmp.
+        this->get()->client_data = static_cast< reader_backend< Device, jpeg_tag >* >( this );
         if( setjmp( this->_mark ))
         {
             this->raise_error();
